@@ -69,7 +69,7 @@ func (fc *FuncCtx) evalCall(st *State, call *ast.CallExpr) Val {
 	if fn == nil {
 		// call through function value
 		fv := fc.evalExpr(st, fun)
-		if fv.Fn != nil {
+		if fv.Fn != nil && fv.T == nil {
 			return fc.inlineFuncLit(st, fv.Fn, call)
 		}
 		if fv.FnObj != nil {
@@ -678,7 +678,8 @@ func (fc *FuncCtx) applyContract(st *State, fn *types.Func, c *FuncContract, rec
 		v := Val{T: t, Typ: rt}
 		results = append(results, v)
 		nm := rv.Name()
-		if nm == "" || nm == "_" {
+		if nm == "" || nm == "_" || !token.IsIdentifier(nm) {
+			// export data gives unnamed results synthetic names (#rv1, ~r0, ...)
 			nm = defaultResultName(res, i)
 		}
 		names[nm] = v
